@@ -87,6 +87,41 @@ def assign(doc, path, v):
         cur[ks[-1]] = v
 
 
+def apply_one(m, cur):
+    """(document after the matcher, failing (matcher name, path) pairs); the document is unchanged when
+    the matcher fails"""
+    import copy
+    if m['kind'] == 'U':
+        return cur, []          # a user-defined matcher that only inspects
+    if m['kind'] == 'W':
+        # a user-defined composite: its members run left to right like the top-level sequence (a failing
+        # member's output is dropped), the group fails as a whole
+        work, errs = cur, []
+        for x in m['inner']:
+            work, e = apply_one(x, work)
+            errs += e
+        return (cur, errs) if errs else (work, [])
+    work = copy.deepcopy(cur)
+    errs = []
+    for p in m['paths']:
+        ok, v = lookup(work, p)
+        if not ok:
+            if m['eom']:
+                errs.append((m['name'], p))
+            continue
+        if m['kind'] == 'T':
+            if docs.go_type(v) != m['typ']:
+                errs.append((m['name'], p))
+                continue
+            assign(work, p, docs.type_placeholder(v))
+        elif m['kind'] == 'C' and not m['ok']:
+            errs.append((m['name'], p))
+            continue
+        else:
+            assign(work, p, m['newv'])
+    return (cur, errs) if errs else (work, [])
+
+
 def simulate(doc, ms):
     """which (matcher name, path) pairs fail, in order, when the matchers run left to right
     (a failing matcher's output is discarded)"""
@@ -94,95 +129,155 @@ def simulate(doc, ms):
     cur = copy.deepcopy(doc)
     failing = []
     for m in ms:
-        work = copy.deepcopy(cur)
-        errs = []
-        for p in m['paths']:
-            ok, v = lookup(work, p)
-            if not ok:
-                if m['eom']:
-                    errs.append((m['name'], p))
-                continue
-            if m['kind'] == 'T':
-                if docs.go_type(v) != m['typ']:
-                    errs.append((m['name'], p))
-                    continue
-                assign(work, p, '<Type:x>')
-            elif m['kind'] == 'C' and not m['ok']:
-                errs.append((m['name'], p))
-                continue
-            else:
-                assign(work, p, m['newv'])
-        if errs:
-            failing += errs
-        else:
-            cur = work
-    return failing
+        cur, errs = apply_one(m, cur)
+        failing += errs
+    return failing, cur
+
+
+def group(r, ms):
+    """now and then some neighbouring matchers are grouped in a user-defined composite, and inspecting
+    user-defined matchers are put in between"""
+    ms = list(ms)
+    if len(ms) >= 1 and r.random() < 0.3:
+        i = r.randrange(len(ms))
+        j = r.randint(i + 1, len(ms))
+        inner = ms[i:j]
+        ms[i:j] = [dict(kind='W', inner=inner, tok=docs.composite_matcher([m['tok'] for m in inner], r.random() < 0.7))]
+    if r.random() < 0.15:
+        ms.insert(r.randint(0, len(ms)), dict(kind='U', tok=docs.user_matcher(r.random() < 0.6, r.random() < 0.3)))
+    return ms
 
 
 MODES = [(False, '', 'none'), (False, 'true', 'none'), (True, '', 'none'), (False, '', 'true'), (False, 'clean', 'false')]
+INVALID = {'json': ['{"a":', '', '{"a":1,}', 'nul', '{"a":1}{"b":2}'], 'yaml': ['a: [1, 2', 'key: "unterminated', 'a: b: c: d']}
 
 
 def make_world(g, tag):
     r = g.r
     w = World(tag)
     ci, upd, cfgupd = r.choice(MODES)
+    creating = not ci and cfgupd != 'false'
     w.add(mode_line(ci, upd))
     w.add(cfg_line(1, 'snaps', 'f', None, cfgupd))
-    w.add('begin 1 %s' % hx(b'TestM'))
-    ordinal = {'entry': 0, 'sa': 0}
-    for _ in range(r.randint(2, 5)):
-        kind = r.choice(['json', 'json', 'yaml', 'sajson'])
-        pool = pool_yaml(g) if kind == 'yaml' else pool_json(g)
-        ms = [r.choice(pool) for _ in range(r.randint(1, 4))]
-        failing = simulate(YD if kind == 'yaml' else DOC, ms)
-        doc = YDOC if kind == 'yaml' else g.json_text(DOC)
-        before = w.add('fsdump')
-        key = 'sa' if kind == 'sajson' else 'entry'
-        ordinal[key] += 1
-        k = ordinal[key]
+    w.add(cfg_line(2, 'snaps', 'nested', None, cfgupd))
+    nnest = 0
+    # one to three executions of the same test in one process (go test -count=N): ordinals start again
+    # at 1 in each of them, whatever happened in the one before
+    nexec = r.choice([1, 1, 2, 2, 3])
+    may_exist = set()
+    for texec in range(1, nexec + 1):
+        # an execution in which EVERY call is rejected before the snapshot stage (invalid document or
+        # failing matchers), typically its only call
+        all_fail = nexec > 1 and texec < nexec and r.random() < 0.5
+        w.add('begin %d %s' % (texec, hx(b'TestM')))
+        ordinal = {'entry': 0, 'sa': 0}
+        for _ in range(r.choice([1, 1, 2]) if all_fail else r.randint(1 if nexec > 1 else 2, 5)):
+            kind = r.choice(['json', 'json', 'yaml', 'sajson'])
+            fam = 'yaml' if kind == 'yaml' else 'json'
+            pool = pool_yaml(g) if kind == 'yaml' else pool_json(g)
+            invalid = r.random() < (0.4 if all_fail else 0.06)
+            for _try in range(50):
+                ms = group(r, [r.choice(pool) for _ in range(r.randint(1, 4))])
+                failing, final = simulate(YD if kind == 'yaml' else DOC, ms)
+                if invalid or not all_fail or failing:
+                    break
+            doc = YDOC if kind == 'yaml' else g.json_text(DOC)
+            form = r.choice(['s', 's', 'b', 'b', 'v']) if fam == 'json' else r.choice(['s', 'b'])
+            fire = r.random() < 0.15
+            if fire:
+                # one of the matchers (a user-defined one, or a Custom callback) records a snapshot of another
+                # Go value in another test while this call is between validation and formatting
+                if r.random() < 0.5:
+                    m = dict(kind='U', tok=docs.user_matcher(r.random() < 0.5, False, True))
+                else:
+                    pth = '$.a' if kind == 'yaml' else 'a'
+                    m = M('C', [pth], 'Custom', docs.custom_matcher(pth, True, '"c"', True, None, True), newv='c')
+                ms.insert(r.randint(0, len(ms)), m)
+                failing, final = simulate(YD if kind == 'yaml' else DOC, ms)
+            if invalid:
+                doc, form = r.choice(INVALID[fam]), r.choice(['s', 'b'])
+            before = w.add('fsdump')
+            key = 'sa' if kind == 'sajson' else 'entry'
+            ordinal[key] += 1
+            k = ordinal[key]
+            existed = (key, k) in may_exist
 
-        def exp(line, raw, ww, failing=failing, before=before):
-            if failing:
-                if [x for x, _ in line.events] != ['E']:
-                    return 'failing matchers must give exactly one failure, got %r' % [(x, v[:40]) for x, v in line.events]
-                if line.writes or line.removed:
-                    return 'a call with failing matchers wrote to the file system'
-                msg = line.events[0][1].decode('utf-8', 'replace')
-                pos = 0
-                for n, p in failing:
-                    needle = 'match.%s("%s")' % (n, p)
-                    i = msg.find(needle, pos)
-                    if i < 0:
-                        return 'failure message does not name %s (in order): %r' % (needle, msg[:200])
-                    pos = i + 1
+            def exp(line, raw, ww, failing=failing, before=before, invalid=invalid, existed=existed):
+                if any(x == 'X' for x, _ in line.events):
+                    return 'the []byte passed by the caller was modified by the call'
+                if invalid:
+                    if [x for x, _ in line.events] != ['E'] or line.writes or line.removed:
+                        return 'an invalid document must give exactly one failure and no write, got %r' % [(x, v[:40]) for x, v in line.events]
+                    return None
+                if failing:
+                    if [x for x, _ in line.events] != ['E']:
+                        return 'failing matchers must give exactly one failure, got %r' % [(x, v[:40]) for x, v in line.events]
+                    if line.writes or line.removed:
+                        return 'a call with failing matchers wrote to the file system'
+                    msg = line.events[0][1].decode('utf-8', 'replace')
+                    pos = 0
+                    for n, p in failing:
+                        needle = 'match.%s("%s")' % (n, p)
+                        i = msg.find(needle, pos)
+                        if i < 0:
+                            return 'failure message does not name %s (in order): %r' % (needle, msg[:200])
+                        pos = i + 1
+                    return None
+                errs = [v for x, v in line.events if x == 'E']
+                if errs and b'match.' in errs[0]:
+                    return 'all matchers satisfiable (or missing paths ignored) but a matcher failure was reported: %r' % errs[0][:100]
+                if errs and not existed and not (ci or cfgupd == 'false'):
+                    # (a slot recorded by an earlier execution with other matchers may legitimately differ)
+                    return 'all matchers satisfiable (or missing paths ignored) but the call failed: %r' % errs[0][:100]
                 return None
-            if any(x == 'E' for x, _ in line.events) and not (ci or cfgupd == 'false'):
-                return 'all matchers satisfiable (or missing paths ignored) but the call failed: %r' % line.events[0][1][:100]
-            return None
-        i = w.add('%s 1 1 s %s %s' % (kind, hx(doc), ' '.join(m['tok'] for m in ms)), ('matcher-failure-reported', exp))
+            if fire:
+                nnest += 1
+                w.add('begin %d %s' % (100 + nnest, hx(b'TestNested%d' % nnest)))
+                w.add('nest json 2 %d v %s' % (100 + nnest, hx(json.dumps({'nested': nnest, 'why': 'recorded from inside a matcher'}))))
+            i = w.add('%s 1 %d %s %s %s' % (kind, texec, form, hx(doc), ' '.join(m['tok'] for m in ms)), ('matcher-failure-reported', exp))
+            if fire:
+                w.add('end %d' % (100 + nnest))
 
-        def exp_fs(line, raw, ww, failing=failing, before=before, i=i, kind=kind, k=k):
-            a, b = parse_fs(ww.impl[before]), parse_fs(raw)
-            if failing:
-                return None if a == b else 'file system changed by a call whose matchers failed'
-            res = Line(ww.impl[i])
-            if [x for x, _ in res.events] == ['L'] and kind != 'sajson':
-                # later calls keep their slots: the entry created now must be slot k
-                p = [x for x in b if x.endswith(b'/f.snap')]
-                ents = parse_snap(b[p[0]]) if p else None
-                if not ents or ents[-1][0] != b'TestM - %d' % k:
-                    return 'call number %d of the test created slot %r' % (k, ents[-1][0] if ents else None)
-            if [x for x, _ in res.events] == ['L'] and kind == 'sajson':
-                if not any(x.endswith(b'/f_%d.snap.json' % k) for x in b):
-                    return 'standalone call number %d did not create f_%d.snap.json: %r' % (k, k, sorted(b))
-            return None
-        w.add('fsdump', ('no-write-and-slots-kept', exp_fs))
-    w.add('end 1')
+            def exp_fs(line, raw, ww, failing=failing, before=before, i=i, kind=kind, k=k, invalid=invalid, existed=existed, texec=texec, final=final):
+                # (nested.snap belongs to the calls made from inside a matcher, which are not this call)
+                a = dict((x, c) for x, c in parse_fs(ww.impl[before]).items() if not x.endswith(b'/nested.snap'))
+                b = dict((x, c) for x, c in parse_fs(raw).items() if not x.endswith(b'/nested.snap'))
+                if failing or invalid:
+                    return None if a == b else 'file system changed by a call whose %s' % ('document is invalid' if invalid else 'matchers failed')
+                res = Line(ww.impl[i])
+                added = [x for x, _ in res.events] == ['L'] and res.events[0][1].endswith(b'added')
+                if added and existed and creating:
+                    return 'call number %d of execution %d recorded a NEW snapshot although an earlier execution already recorded its slot' % (k, texec)
+                if added and kind != 'sajson':
+                    # later calls keep their slots: the entry created now must be slot k
+                    p = [x for x in b if x.endswith(b'/f.snap')]
+                    ents = parse_snap(b[p[0]]) if p else None
+                    if not ents or ents[-1][0] != b'TestM - %d' % k:
+                        return 'call number %d of the test (execution %d) created slot %r' % (k, texec, ents[-1][0] if ents else None)
+                if added and kind == 'sajson':
+                    if not any(x.endswith(b'/f_%d.snap.json' % k) for x in b) or len(b) != len(a) + 1:
+                        return 'standalone call number %d (execution %d) did not create f_%d.snap.json: %r' % (k, texec, k, sorted(set(b) - set(a)))
+                if added and kind != 'yaml':
+                    # the remaining matchers and the comparison proceed normally: what is recorded is the
+                    # document after ALL the (satisfied) matchers
+                    body = ents[-1][1] if kind == 'json' else [c for x, c in b.items() if x.endswith(b'/f_%d.snap.json' % k)][0]
+                    try:
+                        got = json.loads(body.decode())
+                    except Exception as e:
+                        return 'recorded text is not valid JSON: %s' % e
+                    if got != final:
+                        return 'the recorded document is not the input after all its matchers: %r' % body[:300]
+                return None
+            w.add('fsdump', ('no-write-and-slots-kept', exp_fs))
+            if not failing and not invalid:
+                may_exist.add((key, k))
+        w.add('end %d' % texec)
     return w
 
 
 def run(ctx):
     g = Gen(ctx.seed * 1000003 + 17)
+    docs.STYLE = g.r
     n = 200 if ctx.tier == 'quick' else 6000
     worlds = [make_world(g, 'c17-%d' % i) for i in range(n)]
     run_suite(ctx, 'match.matcher-errors', worlds, known=None, chunk=300)
